@@ -997,12 +997,75 @@ func runC05PoolFull(r *mon.Run, stream uint64) {
 			continue
 		}
 		subs = append(subs, sub{txn.ID(), txn.MinerFee.Div64(w)})
+		// one audit per eviction event: the pool is queried (which is when it
+		// evicts) after the newcomer, and again after the newcomer's child
+		audit := func(newcomers map[types.TransactionID]bool, newW uint64) bool {
+			pool := snapPool(cm)
+			var total uint64
+			for _, x := range pool.v2 {
+				total += tip.L.State.V2TransactionWeight(x)
+			}
+			r.Count("poolfull_audits", 1)
+			if total >= maxW {
+				r.Violation("pool-over-limit", fmt.Sprintf("reported pool weighs %d >= %d (ten block weights)", total, maxW), cs, nil)
+				return false
+			}
+			if _, ok := tip.L.PoolBuilder(rng, pool.v1, pool.v2); !ok {
+				r.Violation("pool-not-valid-continuation:full", "the pool is not a valid continuation of the tip after eviction", cs, nil)
+				return false
+			}
+			// eviction order, per eviction event: among the transactions that were
+			// pooled before this step (plus the newcomer), nothing that survived may
+			// be cheaper than something that was evicted in this step
+			var minKept, maxGone *types.Currency
+			gone := 0
+			for i := range subs {
+				s := subs[i]
+				if !prev[s.id] && !newcomers[s.id] {
+					continue // evicted in an earlier step
+				}
+				if par, isChild := parentOf[s.id]; isChild {
+					if _, in := pool.ids[par]; !in {
+						continue // its parent is gone (evicted): the child goes with it
+					}
+				}
+				if _, in := pool.ids[s.id]; in {
+					if minKept == nil || s.rate.Cmp(*minKept) < 0 {
+						minKept = &subs[i].rate
+					}
+				} else {
+					gone++
+					if maxGone == nil || s.rate.Cmp(*maxGone) > 0 {
+						maxGone = &subs[i].rate
+					}
+				}
+			}
+			prev = map[types.TransactionID]bool{}
+			for id := range pool.ids {
+				prev[id] = true
+			}
+			if gone > 0 && prevWeight+newW < maxW {
+				r.Violation("eviction-without-full-pool", fmt.Sprintf("%d transactions were evicted although the pool (%d) plus the newcomer (%d) weigh less than ten block weights (%d)", gone, prevWeight, newW, maxW), cs, nil)
+				return false
+			}
+			prevWeight = total
+			if gone > 0 {
+				r.Count("poolfull_evictions_observed", 1)
+				r.Count("poolfull_transactions_evicted", gone)
+				if minKept != nil && maxGone != nil && maxGone.Cmp(*minKept) > 0 {
+					r.Violation("eviction-not-by-fee", fmt.Sprintf("a transaction paying %v per weight unit was evicted while one paying %v was kept in the same eviction", *maxGone, *minKept), cs, nil)
+					return false
+				}
+			}
+			return true
+		}
+		if !audit(map[types.TransactionID]bool{txn.ID(): true}, w) {
+			return
+		}
 		// sometimes a small child of the newcomer follows, paying a little less
 		// per weight unit than its parent: dependent sets must survive evictions
 		// in pool order (parents before children)
-		newcomers := map[types.TransactionID]bool{txn.ID(): true}
-		newW := w
-		if rng.IntN(3) == 0 && len(txn.SiacoinOutputs) > 0 {
+		if _, survived := prev[txn.ID()]; survived && rng.IntN(3) == 0 && len(txn.SiacoinOutputs) > 0 {
 			eo := txn.EphemeralSiacoinOutput(0)
 			child := types.V2Transaction{
 				SiacoinInputs:  []types.V2SiacoinInput{{Parent: eo}},
@@ -1018,67 +1081,11 @@ func runC05PoolFull(r *mon.Run, stream uint64) {
 				if _, err := cm.AddV2PoolTransactions(tip.L.State.Index, []types.V2Transaction{txn.DeepCopy(), child}); err == nil {
 					subs = append(subs, sub{child.ID(), child.MinerFee.Div64(tip.L.State.V2TransactionWeight(child))})
 					parentOf[child.ID()] = txn.ID()
-					newcomers[child.ID()] = true
-					newW += tip.L.State.V2TransactionWeight(child)
 					r.Count("poolfull_children_paying_less_than_their_parent", 1)
+					if !audit(map[types.TransactionID]bool{child.ID(): true}, tip.L.State.V2TransactionWeight(child)) {
+						return
+					}
 				}
-			}
-		}
-		pool := snapPool(cm)
-		var total uint64
-		for _, x := range pool.v2 {
-			total += tip.L.State.V2TransactionWeight(x)
-		}
-		r.Count("poolfull_audits", 1)
-		if total >= maxW {
-			r.Violation("pool-over-limit", fmt.Sprintf("reported pool weighs %d >= %d (ten block weights)", total, maxW), cs, nil)
-			return
-		}
-		if _, ok := tip.L.PoolBuilder(rng, pool.v1, pool.v2); !ok {
-			r.Violation("pool-not-valid-continuation:full", "the pool is not a valid continuation of the tip after eviction", cs, nil)
-			return
-		}
-		// eviction order, per eviction event: among the transactions that were
-		// pooled before this step (plus the newcomer), nothing that survived may
-		// be cheaper than something that was evicted in this step
-		var minKept, maxGone *types.Currency
-		gone := 0
-		for i := range subs {
-			s := subs[i]
-			if !prev[s.id] && !newcomers[s.id] {
-				continue // evicted in an earlier step
-			}
-			if par, isChild := parentOf[s.id]; isChild {
-				if _, in := pool.ids[par]; !in {
-					continue // its parent is gone (evicted): the child goes with it
-				}
-			}
-			if _, in := pool.ids[s.id]; in {
-				if minKept == nil || s.rate.Cmp(*minKept) < 0 {
-					minKept = &subs[i].rate
-				}
-			} else {
-				gone++
-				if maxGone == nil || s.rate.Cmp(*maxGone) > 0 {
-					maxGone = &subs[i].rate
-				}
-			}
-		}
-		prev = map[types.TransactionID]bool{}
-		for id := range pool.ids {
-			prev[id] = true
-		}
-		if gone > 0 && prevWeight+newW < maxW {
-			r.Violation("eviction-without-full-pool", fmt.Sprintf("%d transactions were evicted although the pool (%d) plus the newcomer (%d) weigh less than ten block weights (%d)", gone, prevWeight, newW, maxW), cs, nil)
-			return
-		}
-		prevWeight = total
-		if gone > 0 {
-			r.Count("poolfull_evictions_observed", 1)
-			r.Count("poolfull_transactions_evicted", gone)
-			if minKept != nil && maxGone != nil && maxGone.Cmp(*minKept) > 0 {
-				r.Violation("eviction-not-by-fee", fmt.Sprintf("a transaction paying %v per weight unit was evicted while one paying %v was kept in the same eviction", *maxGone, *minKept), cs, nil)
-				return
 			}
 		}
 	}
